@@ -218,6 +218,12 @@ def dict_key(I, d, key):
 
 
 def compare(I, op, a, b):
+    if isinstance(a, Vec) or isinstance(b, Vec):
+        if isinstance(a, Vec) and isinstance(b, Vec):
+            return Vec(compare(I, op, x, y) for x, y in zip(a, b))
+        if isinstance(a, Vec):
+            return Vec(compare(I, op, x, b) for x in a)
+        return Vec(compare(I, op, a, y) for y in b)
     if isinstance(a, Phi):
         return sp.ITE(a.cond, _b(compare(I, op, a.a, b)), _b(compare(I, op, a.b, b)))
     if isinstance(b, Phi):
@@ -266,6 +272,17 @@ def compare(I, op, a, b):
     x, y = to_expr(a), to_expr(b)
     r = {ast.Lt: sp.Lt, ast.Gt: sp.Gt, ast.LtE: sp.Le, ast.GtE: sp.Ge}[type(op)](x, y)
     r = _pb(r)
+    if not isinstance(r, bool) and sp.count_ops(x - y) < 250:
+        # sign through factoring (e.g. sqrt(K/1000) - sqrt(K/2000) with K > 0)
+        try:
+            from .algebra import time_limit
+            with time_limit(2):
+                dfac = sp.factor(sp.simplify(x - y))
+            sgn = 1 if dfac.is_positive else -1 if dfac.is_negative else 0 if dfac.is_zero else None
+        except Exception:
+            sgn = None
+        if sgn is not None:
+            return {ast.Lt: sgn < 0, ast.Gt: sgn > 0, ast.LtE: sgn <= 0, ast.GtE: sgn >= 0}[type(op)]
     if not isinstance(r, bool) and getattr(I, "positive", None):
         # facts supplied by the rule: expressions known to be positive
         dpos = x - y if isinstance(op, (ast.Gt, ast.GtE)) else y - x
@@ -405,6 +422,16 @@ def subscript(I, base, key):
             raise AnalysisError("array index form")
         if isinstance(key, slice):
             return Vec(base.items[key])
+        if isinstance(key, Vec):
+            if len(key) != len(base) or not all(isinstance(k, bool) for k in key.items):
+                # a mask whose entries cannot be decided: keep the undecided ones under their condition is not modelled
+                if len(key) == len(base) and all(isinstance(k, (bool, sp.logic.boolalg.Boolean)) for k in key.items):
+                    decided = [k if isinstance(k, bool) else (True if k is sp.true else False if k is sp.false else None) for k in key.items]
+                    if None not in decided:
+                        return Vec(x for x, k in zip(base.items, decided) if k)
+                    raise AnalysisError("boolean mask with undecided entries")
+                raise SymRaise("IndexError", "boolean index did not match indexed array")
+            return Vec(x for x, k in zip(base.items, key.items) if k)
         return base.items[concrete_int(key)]
     if isinstance(base, dict):
         k = dict_key(I, base, key)
@@ -855,6 +882,14 @@ def _math(I, name):
                 return acc
             return to_expr(x)
         return npsum
+    if name == "diff":
+        def npdiff(x):
+            if not isinstance(x, Vec):
+                raise AnalysisError("numpy.diff of a non-array")
+            return Vec(binop(I, ast.Sub(), b_, a_) for a_, b_ in zip(x.items, x.items[1:]))
+        return npdiff
+    if name in ("flip", "flipud"):
+        return lambda x: Vec(list(reversed(x.items))) if isinstance(x, Vec) else x
     if name == "interp":
         def interp(x, xp, fp, left=None, right=None):
             def sy(v, nm):
